@@ -120,7 +120,7 @@ class Walk:
                     elif kk in ("ref", "rawptr"):
                         self.ap(fn, fn.apath_place(rv["place"]), tr, depth - 1, projs)
                     elif kk == "agg":
-                        self.aggregate(fn, rv.get("agg") == "closure", [fn.apath(o) for o in rv["ops"]], tr, depth - 1, projs)
+                        self.aggregate(fn, rv.get("agg") == "closure", [fn.apath(o) for o in rv["ops"]], tr, depth - 1, projs, rv.get("fields"))
                     elif kk in ("binop", "unop", "discr"):
                         if self.consts and kk != "discr":
                             self.leaf("?", "computed value %s" % kk)
@@ -135,7 +135,8 @@ class Walk:
             else:
                 self.call(fn, root[3], t, tr, depth - 1, projs)
         elif k == "agg":
-            self.aggregate(fn, str(root[1]).startswith("closure:"), list(root[2]), tr, depth - 1, projs)
+            import facts as _facts
+            self.aggregate(fn, str(root[1]).startswith("closure:"), list(root[2]), tr, depth - 1, projs, _facts.AGG_FIELDS.get(root[1]))
         elif k == "cast":
             self.ap(fn, root[2], tr, depth - 1, projs)
         elif k == "const":
@@ -147,9 +148,13 @@ class Walk:
         else:
             self.leaf("?", "%s" % (k,))
 
-    def aggregate(self, fn, is_closure, ops, tr, depth, projs):
+    def aggregate(self, fn, is_closure, ops, tr, depth, projs, fields=None):
         if is_closure:
             self.leaf("?", "closure value")
+            return
+        if projs and fields and projs[0] in fields and len(fields) == len(ops):
+            # a named field of a struct value: what was put there
+            self.ap(fn, ops[list(fields).index(projs[0])], tr, depth, projs[1:])
             return
         if projs and str(projs[0]).isdigit() and int(projs[0]) < len(ops):
             self.ap(fn, ops[int(projs[0])], tr, depth, projs[1:])
